@@ -28,7 +28,12 @@ structure RHandle where
   bufs : List Nat     -- buffers its Close closes (indices into `bufs`)
   fd : Bool           -- a file reader's descriptor
   isOpen : Bool
+  once : Bool := false  -- a RECORD: its Close takes effect once (record.go Close drops the closer); a builder's Close closes
+                        -- its buffer every time it is called, and only a builder can be written to
   deriving DecidableEq, Repr
+
+/-- closing it does something -/
+def RHandle.live (hd : RHandle) : Bool := !hd.once || hd.isOpen
 
 structure RState where
   bufs : List RBuf
@@ -59,18 +64,32 @@ def handleBufs (s : RState) (h : Nat) : List Nat :=
   | some hd => hd.bufs
   | none => []
 
+def handleLive (s : RState) (h : Nat) : Bool :=
+  match s.handles[h]? with
+  | some hd => hd.live
+  | none => false
+
+def handleOnce (s : RState) (h : Nat) : Bool :=
+  match s.handles[h]? with
+  | some hd => hd.once
+  | none => false
+
 def step (s : RState) : ROp → RState
-  | .newBuilder max => ⟨s.bufs ++ [⟨max, 0, false⟩], s.handles ++ [⟨[s.bufs.length], false, true⟩]⟩
-  | .write h n => ⟨(s.handleBufs h).foldl (fun bs i => bs.modify i (fun b => { b with size := b.size + n })) s.bufs, s.handles⟩
-  | .build h => ⟨s.bufs, s.handles ++ [⟨s.handleBufs h, false, true⟩]⟩
-  | .unmarshal none => ⟨s.bufs, s.handles ++ [⟨[], false, true⟩]⟩
-  | .unmarshal (some (max, n)) => ⟨s.bufs ++ [⟨max, n, false⟩], s.handles ++ [⟨[s.bufs.length], false, true⟩]⟩
-  | .derive => ⟨s.bufs, s.handles ++ [⟨[], false, true⟩]⟩
+  | .newBuilder max => ⟨s.bufs ++ [⟨max, 0, false⟩], s.handles ++ [⟨[s.bufs.length], false, true, false⟩]⟩
+  | .write h n =>
+    if s.handleOnce h then s   -- records have no Write
+    else ⟨(s.handleBufs h).foldl (fun bs i => bs.modify i (fun b => { b with size := b.size + n })) s.bufs, s.handles⟩
+  | .build h => ⟨s.bufs, s.handles ++ [⟨s.handleBufs h, false, true, true⟩]⟩
+  | .unmarshal none => ⟨s.bufs, s.handles ++ [⟨[], false, true, true⟩]⟩
+  | .unmarshal (some (max, n)) => ⟨s.bufs ++ [⟨max, n, false⟩], s.handles ++ [⟨[s.bufs.length], false, true, true⟩]⟩
+  | .derive => ⟨s.bufs, s.handles ++ [⟨[], false, true, true⟩]⟩
   | .merge hrev horig hasCloser =>
     if hasCloser then ⟨s.bufs, s.handles.modify hrev (fun hd => { hd with bufs := hd.bufs ++ s.handleBufs horig })⟩ else s
-  | .openReader => ⟨s.bufs, s.handles ++ [⟨[], true, true⟩]⟩
+  | .openReader => ⟨s.bufs, s.handles ++ [⟨[], true, true, false⟩]⟩
   | .close h =>
-    ⟨closeBufs s.bufs (s.handleBufs h), s.handles.modify h (fun hd => { hd with fd := false, isOpen := false })⟩
+    -- a record that has been closed already releases nothing a second time (the buffers stay as they are)
+    ⟨if s.handleLive h then closeBufs s.bufs (s.handleBufs h) else s.bufs,
+     s.handles.modify h (fun hd => { hd with fd := false, isOpen := false })⟩
 
 def run (s : RState) : List ROp → RState
   | [] => s
